@@ -67,6 +67,11 @@ fn spec(cfg: Config, sender: Side, depth: usize, devs: usize) -> SeqSpec {
             }
         }
         a.push((Op::SetRecvNonce { side: recv, n: u64::MAX }, true));
+        // the RECEIVER's own sending direction may be anywhere - even exhausted - without touching what it accepts
+        if e.abs[recv.idx()].n[usize::from(!recv.is_init())] < u64::MAX - 1 {
+            a.push((Op::SetSendNonce { side: recv, n: u64::MAX }, true));
+            a.push((Op::SetSendNonce { side: recv, n: u64::MAX - 1 }, true));
+        }
         // the SENDER's receiving nonce is about the other direction: setting it must not disturb what it sends
         // (in a one-way pattern that direction does not even exist)
         let ds = usize::from(sender.is_init());
@@ -127,6 +132,8 @@ fn after_rejection_sweep(ctx: &Ctx, cfg: &Config, sender: Side, label: &str) {
             v.push(vec![Op::SetRecvNonce { side: recv, n: away }, Op::TRead { side: recv, msg: Msg::Garbage(24, 7), cap: Cap::Roomy }, back.clone()]);
         }
         v.push(vec![Op::SetRecvNonce { side: recv, n: u64::MAX }, back.clone()]);
+        // the receiver's own sending direction exhausted (and a write refused there): irrelevant to what it accepts
+        v.push(vec![Op::SetSendNonce { side: recv, n: u64::MAX }, Op::TWrite { side: recv, plen: 1, cap: Cap::Roomy }]);
         v
     };
     let n_f = fails_for(1).len();
